@@ -39,7 +39,7 @@ CLAIM = dict(
           'trees (depth <= 4, sibling / parent / -i / duplicate names / quotes / comments / absolute paths / decoys in the '
           'working directories); falsifier: assemble() from >= 3 working directories vs an independent textual splicer, and '
           'the real CLI from 3 directories'),
-    note=('the include is one level below the top-level source in C14_whole_include_is_paste(_files) (the included file itself is read to any depth); include_bytes items are outside the whole model (Unsupported); os.path '
+    note=('the include is one level below the top-level source in C14_whole_include_is_paste(_files) (the included file itself is read to any depth); include_bytes items are outside assemble_model itself (Unsupported) and covered by its conservative extension assemble_model_x (Proofs/IncBytesWhole.v: C10_include_bytes_whole, C14_include_bytes_cwd); the whole model is run against asm.assemble as ONE object on generated and error trees in both modes (whole_correspondence); os.path '
           'and str methods are modelled by hand (POSIX, ASCII whitespace); symlinks, cycles, non-UTF-8 files not modelled'),
     technique='Coq theorems about an executable Gallina reader model + differential correspondence + direct falsifier',
     design='6/C14')
